@@ -323,6 +323,11 @@ def fam_lookup(p: Dict[str, Any], problems: List[str], w: World) -> Tuple[str, f
     forced = {None: None, "QU": DNSQuestionType.QU, "QM": DNSQuestionType.QM}[p["forced"]]
     timeout = p["timeout"]
     task = w.spawn(info.async_request(zc, timeout, forced))
+    if p.get("stall"):
+        # the event loop is busy elsewhere across one of the lookup's query instants and serves the wake-up late: the queries
+        # that follow are still a second apart
+        w.advance_to_ms(t_lookup + p["stall"][0])
+        w.loop.now_us += int(p["stall"][1] * 1000)
     w.advance_to_ms(t_lookup + timeout + 500)
     if not task.done():
         problems.append("lookup: async_request did not return")
@@ -465,6 +470,11 @@ def points(tier: str) -> List[Dict[str, Any]]:
                     if srv == "absent" and txt == "absent" and jit == 0.0:
                         pts.append({"fam": "lookup", "cache": {"srv": srv, "txt": txt, "a": a}, "timeout": timeout,
                                     "forced": forced, "jitter": jit, "repeat": True})
+                    if srv == "absent" and a == "absent" and timeout == 10000 and forced is None:
+                        for at in (100, 1100, 1300, 2300, 3300):
+                            for ms in (150, 400, 900, 1400, 2500):
+                                pts.append({"fam": "lookup", "cache": {"srv": srv, "txt": txt, "a": a}, "timeout": timeout,
+                                            "forced": forced, "jitter": jit, "stall": [at, ms]})
     return pts
 
 
